@@ -1,8 +1,11 @@
 import QuiverModel.Driver.TextCommon
+import QuiverModel.Driver.TypeCommon
 /-
 qm_c18 — driver for M-Text scanners, string decoding, spans and detect_error_kind; requests in
-Driver/TextCommon.lean.
+Driver/TextCommon.lean. Requests of the type-expression sub-language (M-Parse: `ptype`, `palias`,
+`fmt-type`, …) are answered by `QM.TypeDriver.typeStep` (Driver/TypeCommon.lean).
 -/
 open QM
 
-def main : IO Unit := sxLoop (fun (_ : Unit) req => ((), textStep req)) ()
+def main : IO Unit :=
+  sxLoop (fun (_ : Unit) req => ((), (QM.TypeDriver.typeStep req).getD (textStep req))) ()
